@@ -252,9 +252,10 @@ def run_unit(unit, rec):
                     _v(rec, "d", dict(sig, n=("n" if surplus == 1 else "n/surplus>1"), what=bad[0][:30]), "spaced solutions: %s" % "; ".join(bad), dict(case, n=nn),
                        observed=Xs[:4], expected=dict(target=t, lb=lo, ub=hi), script=_script(spec, t, n=nn))
     # module-level function on a batch of interior targets, against the estimator's answers
+    import dreye
+
     inside = [i for i in range(len(T)) if margins[i] >= 1e-3 * ext][:6]
     if inside:
-        import dreye
 
         rec.trans(2)
         rec.path()
@@ -276,4 +277,49 @@ def run_unit(unit, rec):
             rec.outcome("batch/ok")
         except Exception as e:  # noqa
             _v(rec, "a", dict(base, api="dreye.range_of_solutions", mode="batch", **exc_sig(e)), "module-level range_of_solutions raised %r" % (e,), dict(batch=inside))
+        # integer-typed bounds (np.array([0, 0, 0]), np.array([2, 3, 2])): a larger box around the same targets
+        rec.trans(3)
+        rec.path()
+        try:
+            ilo = np.floor(lo).astype(np.int64)
+            ihi = (np.ceil(hi) + 1 + (np.arange(n) % 2)).astype(np.int64)
+            mn, mx = dreye.range_of_solutions(Pm, np.array(spec["A"]), ilo, ihi, K=kw.get("K"), baseline=kw.get("baseline"))
+            est_i = B.make_est(spec, register=False)
+            est_i.register_system(B.filters_sources(spec["A"])[1], lb=ilo, ub=ihi)
+            mn2, mx2 = est_i.range_of_solutions(Pm)
+            flo, fhi = ilo.astype(float), ihi.astype(float)
+            for j, i in enumerate(inside):
+                V = O.poly_vertices(Abar, P[i] - c0, flo, fhi)
+                if len(V) == 0:
+                    continue
+                rec.distinct((spec, i, "integer-bounds"))
+                for tag, a_, b_ in (("dreye.range_of_solutions", mn[j], mx[j]), ("est.range_of_solutions", mn2[j], mx2[j])):
+                    if np.any(np.abs(np.asarray(a_, dtype=float) - V.min(0)) > 1e-7 * (fhi - flo)) or np.any(np.abs(np.asarray(b_, dtype=float) - V.max(0)) > 1e-7 * (fhi - flo)):
+                        _v(rec, "a", dict(base, target="inside", api=tag, mode="integer-bounds"), "range of solutions with integer-typed bounds differs from the polytope extents", dict(batch=inside, row=j),
+                           observed=dict(min=a_, max=b_), expected=dict(min=V.min(0), max=V.max(0), lb=ilo, ub=ihi))
+                        break
+            rec.outcome("integer-bounds/ok")
+        except Exception as e:  # noqa
+            _v(rec, "a", dict(base, api="dreye.range_of_solutions", mode="integer-bounds", **exc_sig(e)), "range_of_solutions with integer-typed bounds raised %r" % (e,), dict(batch=inside))
+    # absolute capture (relative=False): K and baseline play no role
+    if spec["K"] is not None or spec["baseline"] is not None:
+        Aabs, c0a, _, _ = B.model_of(spec, False)
+        rec.trans()
+        rec.path()
+        xs = np.array([lo + rng_ * (0.3 + 0.05 * ((np.arange(n) + k) % 5)) for k in range(3)])
+        Pa = xs @ Aabs.T + c0a
+        try:
+            mn, mx = est.range_of_solutions(Pa, relative=False)
+            for j in range(len(Pa)):
+                V = O.poly_vertices(Aabs, Pa[j] - c0a, lo, hi)
+                if len(V) == 0:
+                    continue
+                rec.distinct((spec, j, "absolute"))
+                if np.any(np.abs(mn[j] - V.min(0)) > 1e-7 * rng_) or np.any(np.abs(mx[j] - V.max(0)) > 1e-7 * rng_):
+                    _v(rec, "a", dict(base, target="inside", api="est.range_of_solutions", mode="relative=False"), "range of solutions for absolute-capture targets differs from the polytope extents", dict(row=j),
+                       observed=dict(min=mn[j], max=mx[j]), expected=dict(min=V.min(0), max=V.max(0), x=xs[j]))
+                    break
+            rec.outcome("absolute/ok")
+        except Exception as e:  # noqa
+            _v(rec, "a", dict(base, api="est.range_of_solutions", mode="relative=False", **exc_sig(e)), "range_of_solutions(relative=False) raised %r" % (e,), dict(rows=len(Pa)))
     rec.sample(dict(system=names, n_targets=len(T), example=dict(target=T[0][1], kind=T[0][0])), cap=1)
